@@ -274,7 +274,7 @@ def well_formed(data):
         p.Parse(data, True)
     except expat.ExpatError:
         return False
-    except ValueError:           # e.g. multi-byte encodings are not supported
+    except (ValueError, LookupError):           # multi-byte encodings are not supported / unknown encoding
         return False
     return True
 
